@@ -65,6 +65,13 @@ CHECKS = {
         "Kills are BaseExceptions raised from the user's likelihood. AugmentedFlowProposal excluded (known finding C09/C20).",
         "4/C12",
     ),
+    "C13": (
+        "fault_enumeration",
+        "signal handler invoked before every executed source line of selected iterations (sys.settrace line/opcode events), each followed by resume and validation",
+        "For iterations covering the uninformed phase, the first flow iteration with training and population, and ordinary flow iterations (standard sampler) and a complete loop body (importance sampler), the handler FlowSampler installed for SIGTERM/SIGINT/SIGALRM is invoked just before every line event of every nessai frame (loops de-duplicated to first/second/last occurrence; opcode events inside consume_sample, insert_live_point and the integrator in thorough). Oracle: SystemExit with the configured code; the checkpoint left behind resumes; no discarded point recorded or integrated twice, none lost, full live set without duplicates, counts of samples / evidence entries / insertion indices agree; the resumed run completes under the C01/C03 monitors and the C05 oracle; for the INS the last iteration-boundary checkpoint is byte-identical.",
+        "Line-level granularity outside the commit functions. Known findings (17 call sites in NestedSampler.consume_sample between removal and insertion) are listed in known_findings.json; any other site is reported.",
+        "4/C13",
+    ),
     "C15": (
         "model_checking",
         "exhaustive trajectory words on a scripted proposal and exhaustive criteria x tolerance lattices, each prediction replayed as a real run",
@@ -104,8 +111,9 @@ NOT_APPLICABLE = [
 
 ENGINES = [
     {"name": "E1/E2 explorer", "path": "mc/explore.py", "serves_properties": ["C01", "C04", "C18"], "kind_free_text": "level-synchronous explicit-state BFS over real transition functions (history replay, canonical hashing, lock-step reference model); deviation-bounded choice-tree DFS"},
-    {"name": "real-run driver and monitors", "path": "mc/runs.py", "serves_properties": ["C01", "C03", "C05", "C11", "C12", "C15"], "kind_free_text": "tiny configurations of both samplers, kill-at-checkpoint resume histories, invariant monitors (mc/monitors.py), independent result oracles"},
+    {"name": "real-run driver and monitors", "path": "mc/runs.py", "serves_properties": ["C01", "C03", "C05", "C11", "C12", "C13", "C15"], "kind_free_text": "tiny configurations of both samplers, kill-at-checkpoint resume histories, invariant monitors (mc/monitors.py), independent result oracles"},
     {"name": "E3 fault-enumerating file system", "path": "mc/faultfs.py", "serves_properties": ["C11"], "kind_free_text": "records exists/move/open/write/close/torch.save of the real code and enumerates every crash image incl. byte prefixes"},
+    {"name": "E4 interruption injector", "path": "mc/interrupt.py", "serves_properties": ["C13"], "kind_free_text": "sys.settrace line/opcode events on nessai frames inside a window of the sampling loop; fires the installed signal handler at a chosen event; site de-duplication"},
     {"name": "runner", "path": "mc/core.py", "serves_properties": [], "kind_free_text": "context, 16-process fork pool, evidence writer with schema validation, known-finding matcher, replay files"},
 ]
 
